@@ -535,6 +535,33 @@ def callee_writes_arg(prog, fn, callee, apos):
 
 
 # ---------------------------------------------------------------------- engine
+_REL_SIGNS = {"==": frozenset("0"), "<": frozenset("-"), "<=": frozenset("-0"), ">": frozenset("+"), ">=": frozenset("+0"), "!=": frozenset("-+")}
+_SIGNS_REL = {v: k for k, v in _REL_SIGNS.items()}
+_REL_FLIP = {"==": "==", "!=": "!=", "<": ">", "<=": ">=", ">": "<", ">=": "<="}
+
+
+def _join_weaken(cur, v, new):
+    """join of two must-states beyond plain intersection: two different relations between the same pair of keys
+    (x == y on one path, x <= y on the other) leave the weakest relation both imply (x <= y)"""
+    extra = []
+    for a in cur:
+        if a[0] != "rel" or a in new or a[2] not in _REL_SIGNS:
+            continue
+        for b in v:
+            if b[0] != "rel" or b[2] not in _REL_SIGNS:
+                continue
+            if b[1] == a[1] and b[3] == a[3]:
+                bop = b[2]
+            elif b[1] == a[3] and b[3] == a[1]:
+                bop = _REL_FLIP[b[2]]
+            else:
+                continue
+            w = _SIGNS_REL.get(_REL_SIGNS[a[2]] | _REL_SIGNS[bop])
+            if w is not None:
+                extra.append(("rel", a[1], w, a[3]))
+    return new | frozenset(extra) if extra else new
+
+
 def forward_must(g, init, transfer, edge=None, follow=None):
     """Forward must-analysis over XCFG `g`.  States are frozensets; join is
     intersection.  transfer(node, in) -> out; edge(node, label, succ, out) ->
@@ -566,7 +593,9 @@ def forward_must(g, init, transfer, edge=None, follow=None):
                 changed = True
             else:
                 new = cur & v
-                changed = len(new) != len(cur)
+                if len(new) != len(cur):
+                    new = _join_weaken(cur, v, new)
+                changed = new != cur
                 if changed:
                     IN[m] = new
             if changed and m not in inq:
